@@ -201,11 +201,12 @@ func runShard(bin, id, tier string, shard, nshards int, hashFile string, budget 
 			args = append(args, "-emitobs")
 		}
 		args = append(args, extra...)
-		cmd := exec.Command("/bin/sh", append([]string{"-c", "ulimit -v 8388608; exec \"$0\" \"$@\"", bin}, args...)...)
+		cmd := exec.Command("/bin/sh", append([]string{"-c", "ulimit -v 25165824; exec \"$0\" \"$@\"", bin}, args...)...)
 		pr, pw, _ := os.Pipe()
 		cmd.ExtraFiles = []*os.File{pw}
-		var stderr bytes.Buffer
-		cmd.Stderr = &tailWriter{buf: &stderr, max: 16384}
+		var stderrBuf bytes.Buffer
+		stderr := &tailWriter{buf: &stderrBuf, max: 16384}
+		cmd.Stderr = stderr
 		cmd.Stdout = nil
 		if err := cmd.Start(); err != nil {
 			die(2, "cannot start worker: %v", err)
@@ -292,12 +293,21 @@ func runShard(bin, id, tier string, shard, nshards int, hashFile string, budget 
 	return wr
 }
 
+// tailWriter keeps the head (the reason of a Go crash is printed first) and the tail of a stream.
 type tailWriter struct {
-	buf *bytes.Buffer
-	max int
+	buf  *bytes.Buffer
+	max  int
+	head []byte
 }
 
 func (t *tailWriter) Write(p []byte) (int, error) {
+	if len(t.head) < 4096 {
+		n := 4096 - len(t.head)
+		if n > len(p) {
+			n = len(p)
+		}
+		t.head = append(t.head, p[:n]...)
+	}
 	t.buf.Write(p)
 	if t.buf.Len() > 4*t.max {
 		b := t.buf.Bytes()
@@ -306,6 +316,13 @@ func (t *tailWriter) Write(p []byte) (int, error) {
 		t.buf.Write(keep)
 	}
 	return len(p), nil
+}
+
+func (t *tailWriter) String() string {
+	if len(t.head) >= 4096 && t.buf.Len() > 4096 {
+		return string(t.head) + "\n...\n" + t.buf.String()
+	}
+	return t.buf.String()
 }
 
 func lastLines(s string, n int) string {
@@ -780,7 +797,7 @@ type onlyResult struct {
 // runOnly runs a single case in an isolated worker process.
 func runOnly(bin, id, tier string, g int, timeout time.Duration) (onlyResult, string, string) {
 	var res onlyResult
-	cmd := exec.Command("/bin/sh", "-c", "ulimit -v 8388608; exec \"$0\" \"$@\"", bin, "-check", id, "-tier", tier, "-only", strconv.Itoa(g), "-emitobs")
+	cmd := exec.Command("/bin/sh", "-c", "ulimit -v 25165824; exec \"$0\" \"$@\"", bin, "-check", id, "-tier", tier, "-only", strconv.Itoa(g), "-emitobs")
 	pr, pw, _ := os.Pipe()
 	cmd.ExtraFiles = []*os.File{pw}
 	var stderr bytes.Buffer
